@@ -235,6 +235,18 @@ def run(ctx):
                witness='delete from t select a = 1')
     # (5a) the shown line and the caret line, by interpretation of error_location on token lists with source positions -------------------------------
     check_caret_alignment(ctx, sm, el)
+    # the positions error_location reads are those of the parser's token objects: nothing that handles them on the way (tokens_to_string while a grammar action
+    # rebuilds an embedded query) may change them (C16's table, re-run)
+    from . import C16
+    from ..core import Ctx as _Ctx
+    sub16 = _Ctx('C16', ctx.src, ctx.tier)
+    C16.run(sub16)
+    ctx.setcount('token_untouched_rows', sub16.rules.get('C16.tokens-untouched', (0, 0))[0])
+    ctx.floor('token_untouched_rows', 8)
+    ctx.ob('C19.tokens-untouched', 'all', True, '')
+    for f_ in sub16.findings:
+        if f_.rule == 'C16.tokens-untouched':
+            ctx.ob('C19.tokens-untouched', f_.construct, False, f_.msg, file=f_.file, line=f_.line, witness=f_.witness)
 
     # (5b) token.lineno is not a physical line number ------------------------------------------------------------
     check_lineno_use(ctx, lex, sm)
